@@ -284,6 +284,14 @@ def main(argv):
             print(f"  {d['status']:9s} {d['mutant']}: {d['obligation_or_reason'][:200]}")
         print(f"selftest {argv[1]}: {st['summary']['killed']}/{st['summary']['mutants']} mutants killed")
         return 0 if not st["problems"] else 2
+    if len(argv) >= 1 and argv[0] == "--all":
+        tier = argv[1] if len(argv) > 1 else "quick"
+        man = json.load(open(os.path.join(VERIF, "MANIFEST.json")))
+        worst = 0
+        for c in man["checks"]:
+            rc = check_property(c["property_id"], tier, int(os.environ.get("VERIF_SEED", "0") or 0))
+            worst = max(worst, rc)
+        return worst
     if len(argv) >= 1 and argv[0] == "--all-units":
         rc = 0
         with cf.ThreadPoolExecutor(max_workers=8) as ex:
